@@ -448,8 +448,64 @@ def step_json(hist, conf):
     return {"canon": canon, "viol": viol, "out": out, "enabled": _enabled(conf)}
 
 
+def run_tee(case):
+    """The SAME record objects written to several writers alive at once (a tee): every stream must announce what it needs itself."""
+    from flow.record import RecordStreamReader, RecordStreamWriter
+    from flow.record.adapter.jsonfile import JsonfileReader, JsonfileWriter
+
+    h = jhash(case)
+    viol = []
+    outs = []
+    objs = [recs.build_record(KINDS[k]) for k in case["kinds"]]
+    want = obs_list(objs)
+    for packer in ("binary", "json"):
+        if packer == "json" and any(k.startswith("G") or k.startswith("F2_") for k in case["kinds"]):
+            continue
+        n = case["writers"]
+        bufs = [io.BytesIO() if packer == "binary" else io.StringIO() for _ in range(n)]
+        ws = [RecordStreamWriter(b) if packer == "binary" else JsonfileWriter(b) for b in bufs]
+        order = [(wi, r) for r in objs for wi in range(n)] if case["order"] == "record-major" else [(wi, r) for wi in range(n) for r in objs]
+        try:
+            for wi, r in order:
+                ws[wi].write(r)
+            for w_ in ws:
+                w_.flush()
+        except Exception as e:  # noqa: BLE001
+            viol.append(("C03:tee:%s:write-raises-%s" % (packer, type(e).__name__), case, {"error": repr(e)[:200]}))
+            continue
+        for wi, b in enumerate(bufs):
+            try:
+                if packer == "binary":
+                    got = list(RecordStreamReader(io.BytesIO(b.getvalue())))
+                else:
+                    _n[0] += 1
+                    p_ = os.path.join(os.environ["VERIF_SCRATCH"], "c03t-%d-%d.json" % (os.getpid(), _n[0]))
+                    with open(p_, "w") as f:
+                        f.write(b.getvalue())
+                    try:
+                        rd = JsonfileReader(p_)
+                        got = list(rd)
+                        rd.close()
+                    finally:
+                        os.unlink(p_)
+            except Exception as e:  # noqa: BLE001
+                viol.append(("C03:tee:%s:writer-%d-unreadable:%s" % (packer, wi, type(e).__name__), case, {"error": repr(e)[:200]}))
+                outs.append("tee:unreadable")
+                continue
+            if obs_list(got) != want:
+                viol.append(("C03:tee:%s:writer-%d-differs" % (packer, wi), case, {"read": len(got), "written": len(want)}))
+                outs.append("tee:diff")
+            else:
+                outs.append("tee:ok")
+        for w_ in ws:
+            w_.fp = None
+    return {"ev": len(outs), "h": h, "nt": True, "out": sorted(set(outs)), "viol": viol}
+
+
 def run_case(case):
     """Replay: judge every prefix of the history."""
+    if case.get("kind") == "tee":
+        return run_tee(case)
     if case.get("kind") == "tla-edge":
         ok, got, _ = replay_edge((case["path"], case.get("model_steps"), case["writers"]))
         return {"ev": 1, "h": jhash(case), "viol": [] if ok else [("C03:tla:implementation-diverges-from-model:%s" % case["path"][-1][1], case, {"implementation_frames": got})]}
@@ -661,6 +717,13 @@ def main(tier, seed, workers=None):
         machines.append({"packer": packer, "writers": m, "kinds": kinds, "states": s, "transitions": t, "fixpoint": fix, "depth": depth})
         tot_s += s
         tot_t += t
+    # tee: one record object into 2 (3) writers alive at once
+    from mc.space import explore
+
+    tee_kinds = [k for k in KINDS if not k.endswith("_BAD") and k != "G_AB"]  # (G_AB is the known single-identifier finding)
+    tee_cases = [{"kind": "tee", "kinds": [k], "writers": n, "order": o} for k in tee_kinds for n in (2, 3) for o in ("record-major", "writer-major")]
+    tee_cases += [{"kind": "tee", "kinds": [k1, k2], "writers": 2, "order": o} for k1 in ("A", "G", "N_A", "G_Y", "G_NEST", "N_X") for k2 in ("B", "G_B", "N_B", "G_Y", "C") for o in ("record-major", "writer-major")]
+    explore(run, tee_cases, run_tee, workers)
     # TLA+ leg: model checked by TLC, every edge replayed against the implementation
     t1 = tla_leg(run, "DescriptorProtocol1.cfg" if not thorough else "DescriptorProtocol.cfg", workers, "tla")
     t2 = tla_leg(run, "DescriptorProtocolGAB.cfg", workers, "tla-gab") if thorough else {}
